@@ -25,7 +25,7 @@ pub const ALPHABET: [&str; 50] = [
 fn n_lines(b: &[u8]) -> u32 { 1 + b.iter().filter(|c| **c == b'\n').count() as u32 }
 
 // Expectation: "any" (accept or reject cleanly), "reject" (must be a front-end
-// rejection), "read_error" (not UTF-8), with an optional minimum line.
+// rejection), "accept" (valid by construction: must be parsed and run), "read_error" (not UTF-8), with an optional minimum line.
 pub fn front_contract(src: &[u8], expect: &str, min_line: u32, classify_inproc: bool) -> Result<&'static str, String> {
     let quick = CliOpts{timeout: std::time::Duration::from_secs(3), patient: false, mem_limit: true, ..CliOpts::default()};
     let mut o = run_cli_opts(src, &quick);
@@ -84,6 +84,9 @@ pub fn front_contract(src: &[u8], expect: &str, min_line: u32, classify_inproc: 
     };
     if expect == "reject" && !rejected {
         return Err(format!("input must be rejected by the front end but was accepted: {}", o.brief()));
+    }
+    if expect == "accept" && rejected {
+        return Err(format!("a program that is valid by construction was rejected by the front end: {}", o.brief()));
     }
     if !rejected {
         // Parsed and run: success or a reported run-time error.
@@ -496,6 +499,44 @@ fn large_inputs(ctx: &Ctx) -> Vec<(Case, bool)> {
     out
 }
 
+// Both directions at the statement boundary and inside interpolated literals:
+// a line break after a token that does not continue a statement is a syntax
+// error (nothing runs), and programs that are valid by construction — among
+// them slots holding string literals with escaped quotes and backslashes — are
+// accepted.
+fn boundary_cases(ctx: &Ctx) -> Vec<(Case, bool)> {
+    let mut out = vec![];
+    for tok in ["===", "!==", "..", "->"] {
+        let (l, r) = if tok == "->" { ("\"ab\"", "len()") } else if tok == ".." { ("1", "3") } else { ("a", "a") };
+        let src = format!("print(\"ran\")\na := [1]\nv := {l} {tok}\n    {r}\nprint(v)\n");
+        ctx.label("line break after a token that does not continue");
+        out.push((front_case("no_continuation", src.into_bytes(), "reject", 3, &format!("line break directly after `{tok}`")), true));
+        let src = format!("print(\"ran\")\na := [1]\nv := {l} {tok} {r}\nprint(v)\n");
+        ctx.label("valid by construction");
+        out.push((front_case("valid", src.into_bytes(), "accept", 0, &format!("`{tok}` on one line")), true));
+    }
+    let valid = [
+        "dir := \"C:\"\nf := \"x\"\nprint($\"path: ${ dir + \"\\\\\" }${f}\")\n",
+        "print($\"${\"\\\\\"}\")\nprint($\"${\"\\\\\"}${\"\\\\\"}!\")\n",
+        "q := \"x\"\nprint($\"a${\"q\\\"b\"}c${q}\")\n",
+        "q := \"x\"\nprint($\"${q + \"\\\\\\\"\"}|${q}\")\n",
+        "q := \"x\"\nprint($\"${ $\"${q}\\\\\" }${q}\")\n",
+        "q := \"x\"\nprint($\"${[q, \"\\$\"][1]}${q}\")\n",
+        "q := \"x\"\nprint($\"\\\\${q}\\\\\")\nprint(\"\\\\\")\n",
+        "x := 1;; y := 2;\n;print(x + y);\n",
+        "xs := [\n    1,\n    2,\n]\no := {\n    \"a\": 1,\n}\nprint(xs)\nprint(o)\n",
+        "fn f(a,\n    b,\n) {\n    return a +\n        b\n}\nprint(f(1,\n    2,\n))\n",
+        "# only a comment\n",
+        "",
+        "\n\n\n",
+    ];
+    for v in valid {
+        ctx.label("valid by construction");
+        out.push((front_case("valid", v.as_bytes().to_vec(), "accept", 0, "hand-written valid program"), true));
+    }
+    out
+}
+
 pub fn run(ctx: &Ctx) {
     ctx.set_rule("all strings of length <= 3 over a 50-symbol alphabet of Seed punctuation / keywords / escapes / multi-byte and control characters (exhaustive), random Unicode strings, token-level mutations (delete, duplicate, swap, replace, glue a multi-byte character, control characters) and truncations of the repository's 336 test scripts and of generated programs, unterminated strings / escapes / slots at EOF, invalid UTF-8 inside comments / strings / anywhere, valid printing prefix + broken tail; oracle: never a crash or hang; a front-end rejection has empty stdout, exit 103, exactly one `<path>:<line>:<col>: <message>` with 1 <= line <= lines+1 (and within the broken tail); non-UTF-8 is a read error; beyond the small scope: tokens of up to 5000 characters, 120 nested parentheses, 800 lines, long tokens of every kind (multi-byte text at every alignment around 32..512 bytes) as the unexpected token of a syntax error. Non-trivial = the input is rejected, or was mutated / contains multi-byte or control characters next to tokens; distinct = distinct inputs");
     ctx.replay_corpus(Some(&custom));
@@ -537,6 +578,20 @@ pub fn run(ctx: &Ctx) {
     ctx.judge_all(illegal_char_cases(ctx, &corp, &offs, ctx.n(2_000, 60_000)), Via::Cli, Some(&custom));
     ctx.judge_all(escape_then_error_cases(ctx), Via::Cli, Some(&custom));
     ctx.judge_all(large_inputs(ctx), Via::Cli, Some(&custom));
+    ctx.judge_all(boundary_cases(ctx), Via::Cli, Some(&custom));
+    // Generated programs are valid by construction: each must be accepted.
+    {
+        let cfg = sdmodel::gen::GenCfg::balanced();
+        let big = sdmodel::gen::GenCfg::big();
+        let n = ctx.n(4_000, 300_000);
+        ctx.proptest_tapes("valid_programs", n, 600, Via::Cli, Some(&custom), |t| {
+            let which = if t.chance(1, 5) { &big } else { &cfg };
+            let prog = sdmodel::gen::gen_prog(t, which);
+            let printed = sdmodel::print::print_prog(&prog, &sdmodel::print::Style::wild(10), Some(t));
+            ctx.label("valid by construction");
+            Some((front_case("valid", printed.src.into_bytes(), "accept", 0, "generated program in a random layout"), true))
+        });
+    }
     // Every-offset truncation of a few programs, through the binary.
     let mut cases = vec![];
     for (k, s) in corp.iter().enumerate().filter(|(k, _)| k % 29 == 0).take(if ctx.tier == Tier::Quick { 8 } else { 60 }) {
